@@ -25,7 +25,7 @@ def sizes_for(ctx, cls, salt):
     rng = ctx.np_rng(salt)
     small_max = 7 if ctx.thorough else 5
     sizes = K.all_sizes(cls, small_max)
-    big_max = 16 if ctx.thorough else 11
+    big_max = (16 if ctx.thorough else 11) if cls == 'Color666PlanarCode' else (12 if ctx.thorough else 9)
     n_big = 6 if ctx.thorough else 2
     seen = set(sizes)
     tries = 0
@@ -82,11 +82,27 @@ def malformed_locations(ss, extra):
     return res
 
 
+def unsupported_sizes(cls):
+    """documented (L_x x L_y) but outside the supported family (known finding D14): the model
+    transcribes the code there too"""
+    if cls in ('Color488Code', 'Color666ToricCode'):
+        return [(1, 2), (2, 1), (2, 3), (3, 2), (1, 3)]
+    return []
+
+
 def lattice_streams(ctx, cls, salt):
+    out = []
+    for fam, sizes in (('supported', sizes_for(ctx, cls, salt)), ('outside-family', unsupported_sizes(cls))):
+        if sizes:
+            out.append(one_stream(ctx, cls, fam, sizes))
+    return out
+
+
+def one_stream(ctx, cls, fam, sizes):
     import panqec.codes as C
     klass = getattr(C, cls)
-    s = Stream(f'lattice-model-{cls}-supported')
-    for size in sizes_for(ctx, cls, salt):
+    s = Stream(f'lattice-model-{cls}-{fam}')
+    for size in sizes:
         pre = f'lat {cls} {size[0]} {size[1]}'
         label = f'{cls}{tuple(size)}'
         big = max(size) > 5
@@ -98,20 +114,28 @@ def lattice_streams(ctx, cls, salt):
         except Exception as e:  # noqa
             s.add(f'{pre} qubits', f'EXC:{type(e).__name__}', {'code': label}, tag='construct-fail')
             continue
-        s.add(f'{pre} qubits', guarded(lambda: coords_str(qs)), {'code': label, 'what': 'qubit_coordinates'}, tag=tag)
-        s.add(f'{pre} stabs', guarded(lambda: coords_str(ss)), {'code': label, 'what': 'stabilizer_coordinates'}, tag=tag)
-        s.add(f'{pre} n', guarded(lambda: str(code.n)), {'code': label, 'what': 'n'}, tag=tag)
-        s.add(f'{pre} k', guarded(lambda: str(code.k)), {'code': label, 'what': 'k'}, tag=tag)
-        s.add(f'{pre} logx', guarded(lambda: ops_str(code.get_logicals_x())), {'code': label, 'what': 'get_logicals_x'}, tag=tag)
-        s.add(f'{pre} logz', guarded(lambda: ops_str(code.get_logicals_z())), {'code': label, 'what': 'get_logicals_z'}, tag=tag)
-        # end to end: the matrices of the implementation against the generic code model applied
-        # to the lattice model (the objects the all-sizes theorem `valid_code` speaks about)
-        s.add(f'{pre} hmat', guarded(lambda: stack(K.dense(code.stabilizer_matrix)) if code.n_stabilizers else '_'),
-              {'code': label, 'what': 'stabilizer_matrix'}, tag='matrix')
-        s.add(f'{pre} lxmat', guarded(lambda: stack(K.dense(code.logicals_x))),
-              {'code': label, 'what': 'logicals_x'}, tag='matrix')
-        s.add(f'{pre} lzmat', guarded(lambda: stack(K.dense(code.logicals_z))),
-              {'code': label, 'what': 'logicals_z'}, tag='matrix')
+        def hmat():
+            return stack(K.dense(code.stabilizer_matrix)) if code.n_stabilizers else '_'
+        if big:
+            # one op: the model computes its derived qubit list once
+            s.add(f'{pre} bundle', guarded(lambda: ' # '.join([
+                coords_str(qs), coords_str(ss), str(code.n), str(code.k), ops_str(code.get_logicals_x()),
+                ops_str(code.get_logicals_z()), hmat(), stack(K.dense(code.logicals_x)),
+                stack(K.dense(code.logicals_z))])), {'code': label, 'what': 'all getters and matrices'}, tag=tag)
+        else:
+            s.add(f'{pre} qubits', guarded(lambda: coords_str(qs)), {'code': label, 'what': 'qubit_coordinates'}, tag=tag)
+            s.add(f'{pre} stabs', guarded(lambda: coords_str(ss)), {'code': label, 'what': 'stabilizer_coordinates'}, tag=tag)
+            s.add(f'{pre} n', guarded(lambda: str(code.n)), {'code': label, 'what': 'n'}, tag=tag)
+            s.add(f'{pre} k', guarded(lambda: str(code.k)), {'code': label, 'what': 'k'}, tag=tag)
+            s.add(f'{pre} logx', guarded(lambda: ops_str(code.get_logicals_x())), {'code': label, 'what': 'get_logicals_x'}, tag=tag)
+            s.add(f'{pre} logz', guarded(lambda: ops_str(code.get_logicals_z())), {'code': label, 'what': 'get_logicals_z'}, tag=tag)
+            # end to end: the matrices of the implementation against the generic code model applied
+            # to the lattice model (the objects the all-sizes theorem `valid_code` speaks about)
+            s.add(f'{pre} hmat', guarded(hmat), {'code': label, 'what': 'stabilizer_matrix'}, tag='matrix')
+            s.add(f'{pre} lxmat', guarded(lambda: stack(K.dense(code.logicals_x))),
+                  {'code': label, 'what': 'logicals_x'}, tag='matrix')
+            s.add(f'{pre} lzmat', guarded(lambda: stack(K.dense(code.logicals_z))),
+                  {'code': label, 'what': 'logicals_z'}, tag='matrix')
         extra = extra_locations(cls, size) if not big else []
         bad = malformed_locations(ss, extra) if not big else malformed_locations(ss, [])[:12]
         for loc in ss + bad:
@@ -131,4 +155,4 @@ def lattice_streams(ctx, cls, salt):
                       {'code': label, 'what': 'get_deformation', 'location': list(loc), 'name': name,
                        'kwargs': kw}, nontrivial=(name in klass.deformation_names and loc in qs),
                       tag='deform')
-    return [s.run()]
+    return s.run()
